@@ -49,6 +49,7 @@ type traceIn struct {
 	leaves           []traceLeaf
 	limit, minAvail  int64
 	policy, subLimit int64 // policy 0 none, 1 sub-group policy without topology, 2 with hard topology
+	jobName, subName int64 // how the tier limit is given: 0 number, 1 valid tier name ("tier<limit>"), 2 a tier name no HyperNode carries
 	notReady, pin    int64 // notReady: two extra HyperNodes claiming each other; pin: NominatedHyperNode of the first sub-job (0 = none)
 	annot            int64 // leaf HyperNode the scheduler remembers as the job's AllocatedHyperNode (0 = lost by a restart)
 	pods             []tracePod
@@ -65,6 +66,9 @@ func decTrace(in []int64) traceIn {
 	t.limit, t.minAvail, t.policy, t.subLimit, t.annot = job[0], job[1], job[2], job[3], job[4]
 	if len(job) > 6 {
 		t.notReady, t.pin = job[5], job[6]
+	}
+	if len(job) > 8 {
+		t.jobName, t.subName = job[7], job[8]
 	}
 	np := int(r.next())
 	for i := 0; i < np; i++ {
@@ -134,7 +138,9 @@ func runTrace(in []int64) []int64 {
 	// UpdateHyperNode (below), so the view half and the placement half are composed
 	var hnObjs []*topologyv1alpha1.HyperNode
 	addHN := func(name string, tier int, ty topologyv1alpha1.MemberType, members []string, nodes sets.Set[string]) {
-		hnObjs = append(hnObjs, api.BuildHyperNode(name, tier, mem(ty, members...)))
+		hn := api.BuildHyperNode(name, tier, mem(ty, members...))
+		hn.Spec.TierName = fmt.Sprintf("tier%d", tier)
+		hnObjs = append(hnObjs, hn)
 	}
 	var nodes []*v1.Node
 	nodeIdx := int64(0)
@@ -186,6 +192,22 @@ func runTrace(in []int64) []int64 {
 		pg = util.BuildPodGroupWithSubGroupPolicy("pg1", "c1", "", "q1", int32(t.minAvail), nil, schedulingv1.PodGroupInqueue, "hard", int(t.limit), policies)
 	} else {
 		pg = util.BuildPodGroupWithNetWorkTopologies("pg1", "c1", "", "q1", int32(t.minAvail), nil, schedulingv1.PodGroupInqueue, "hard", int(t.limit))
+	}
+	// tier limits given by NAME are translated at session open (adjustNetworkTopologySpec)
+	byName := func(spec *schedulingv1.NetworkTopologySpec, mode, limit int64) {
+		if spec == nil || mode == 0 {
+			return
+		}
+		spec.HighestTierAllowed = nil
+		if mode == 1 {
+			spec.HighestTierName = fmt.Sprintf("tier%d", limit)
+		} else {
+			spec.HighestTierName = "no-such-tier"
+		}
+	}
+	byName(pg.Spec.NetworkTopology, t.jobName, t.limit)
+	for i := range pg.Spec.SubGroupPolicy {
+		byName(pg.Spec.SubGroupPolicy[i].NetworkTopology, t.subName, t.subLimit)
 	}
 	var pods []*v1.Pod
 	want := map[string]api.TaskStatus{} // pod name -> status to force in the cache (Binding / Allocated)
@@ -327,6 +349,26 @@ func runTrace(in []int64) []int64 {
 		obs = append(obs, sr.role, sr.rec)
 	}
 
+	// correspondence: the tier limits after adjustNetworkTopologySpec
+	obs = append(obs, tag(3)...)
+	type subLim struct{ role, hard, limit int64 }
+	var lims []subLim
+	for _, job := range ssn.Jobs {
+		hard, lim := job.IsHardTopologyMode()
+		obs = append(obs, vh.B(hard), int64(lim)*vh.B(hard))
+		for _, sj := range job.SubJobs {
+			if r, ok := roleOf(sj); ok {
+				h, l := sj.IsHardTopologyMode()
+				lims = append(lims, subLim{r, vh.B(h), int64(l) * vh.B(h)})
+			}
+		}
+	}
+	sort.Slice(lims, func(i, j int) bool { return lims[i].role < lims[j].role })
+	obs = append(obs, int64(len(lims)))
+	for _, l := range lims {
+		obs = append(obs, l.role, l.hard, l.limit)
+	}
+
 	if t.annot != 0 {
 		// a scheduler that has been running keeps the job's AllocatedHyperNode in its cache
 		// (cache.go:1741); annot = 0 is the restart case, where it is recovered from the pods
@@ -376,15 +418,18 @@ func runTrace(in []int64) []int64 {
 	desc := ""
 	out.notReady = t.notReady != 0
 	for _, job := range ssn.Jobs {
-		out.anyHard = out.anyHard || job.ContainsHardTopology()
+		// The groups judged by laws 108/109 follow the constraints the USER gave (a number, or a
+		// tier name that a HyperNode of the forest carries), not what the session made of them:
+		// a limit lost in translation must show up as a law failure.
+		out.anyHard = out.anyHard || job.ContainsHardTopology() || (t.policy != 3 && t.jobName != 2) || (t.policy >= 2 && t.subName != 2)
 		for _, task := range job.Tasks {
 			if inputStatus[task.Name] == 0 && task.NodeName != "" &&
 				(task.Status == api.Binding || task.Status == api.Bound || task.Status == api.Running) {
 				out.newBinds++
 			}
 		}
-		if hard, limit := job.IsHardTopologyMode(); hard {
-			out.groups = append(out.groups, placementGroup{false, int64(limit), hnID(job.AllocatedHyperNode), placedOf(job.Tasks)})
+		if t.policy != 3 && t.jobName != 2 {
+			out.groups = append(out.groups, placementGroup{false, t.limit, hnID(job.AllocatedHyperNode), placedOf(job.Tasks)})
 		}
 		names := []string{}
 		for _, task := range job.Tasks {
@@ -402,7 +447,11 @@ func runTrace(in []int64) []int64 {
 		sort.Strings(sids)
 		for _, id := range sids {
 			sj := job.SubJobs[api.SubJobID(id)]
-			if hard, limit := sj.IsHardTopologyMode(); hard {
+			hard, limit := sj.IsHardTopologyMode()
+			if t.policy >= 2 { // the sub-group policy carries its own hard limit
+				hard, limit = t.subName != 2, int(t.subLimit)
+			}
+			if hard {
 				out.groups = append(out.groups, placementGroup{true, int64(limit), hnID(sj.AllocatedHyperNode), placedOf(sj.Tasks)})
 			}
 		}
@@ -504,7 +553,9 @@ func genTrace(r *vh.Rng) (in []int64, nontrivial bool, desc any) {
 	if r.Chance(1, 5) {
 		pin = int64(r.Range(1, L)) // a leaf HyperNode: tier 1 is within every limit
 	}
-	in = append(in, 7, limit, minAvail, policy, sub, annot, notReady, pin)
+	jobName := int64(vh.Pick(r, []int{0, 0, 0, 1, 1, 2}))
+	subName := int64(vh.Pick(r, []int{0, 0, 1, 1, 1, 2}))
+	in = append(in, 9, limit, minAvail, policy, sub, annot, notReady, pin, jobName, subName)
 	in = append(in, int64(np))
 	statuses := []int64{}
 	oneStatus := int64(r.Range(1, 4)) // same allocated status for all placed pods, or a mixture
@@ -537,5 +588,5 @@ func genTrace(r *vh.Rng) (in []int64, nontrivial bool, desc any) {
 		in = append(in, 3, 0, nom, role)
 	}
 	return in, true, map[string]any{"depth": depth, "leaves": nodesOf, "limit": limit, "policy": policy, "subLimit": sub,
-		"minAvailable": minAvail, "placed": statuses, "placedLeafFull": full, "remembered": annot, "notReady": notReady, "pinned": pin}
+		"minAvailable": minAvail, "placed": statuses, "placedLeafFull": full, "remembered": annot, "notReady": notReady, "pinned": pin, "jobLimitBy": []string{"number", "name", "unknown-name"}[jobName], "subLimitBy": []string{"number", "name", "unknown-name"}[subName]}
 }
